@@ -620,6 +620,20 @@ def mc_update_spec(ctx: Ctx):
         v_ok = z3.And(y >= 0, y <= 9999, m >= 0, m <= 99,
                       S.valid_date(y, m, z3.IntVal(1)))
         v_term, kind = Validity.v_month(y, m), 3
+    elif isinstance(validity, VDateTime):
+        # an instance of a subclass of date (a datetime) on a converter whose
+        # kind is already fixed to unrestricted / year / month: whether it is
+        # taken as a kind of its own (as the code does) or as the day it
+        # spells, it is a different kind of validity.  On a daily converter
+        # the property allows both rejecting it and taking it as that day, so
+        # nothing is demanded there (the stand-in decides by the lookups that
+        # follow); the first update of a converter is outside the contract
+        req.append(z3.Not(mc_kind_none(h, c)))
+        req.append(mc_kind(h, c) != 4)
+        for sp in specs.items:
+            req.append(wf_currency(h, sp.items[0].t))
+        return req, [Case("different-kind-of-validity/subclass-instance", TRUE,
+                          raises="ValueError", props=["C11", "C16"])]
     elif isinstance(validity, VDate):
         v_ok, kind = TRUE, 4
         v_term = Validity.v_date(validity.y, validity.m, validity.d)
@@ -702,11 +716,12 @@ def mc_update_scenarios():
         "year-month": lambda I: VTuple([sym_int("year"), sym_int("month")]),
         "date": lambda I: _sym_date(I, "vd"),
         "float": lambda I: sym_rat("v", T_FLOAT),
+        "datetime": lambda I: VDateTime(*_sym_date(I, "vdt").__dict__.values()),
     }
     out = []
     for vk, vf in vals.items():
         for n in (0, 1, 2):
-            if vk == "float" and n:
+            if vk == "float" and n or vk == "datetime" and n == 2:
                 continue
             out.append(Scenario(f"validity-{vk}/{n}-specs",
                                 lambda I, vf=vf, n=n: dict(
@@ -722,7 +737,7 @@ def _sym_date(I, name):
     return VDate(y, m, d)
 
 
-from pyvc.sym import VDate  # noqa: E402
+from pyvc.sym import VDate, VDateTime  # noqa: E402
 
 register(Contract(KM + "MoneyConverter.update", mc_update_spec,
                   mc_update_scenarios, props=["C11", "C16"], summarize=False,
